@@ -205,6 +205,14 @@ impl Node {
         guard("Interface::poll", || {
             iface.poll(inst(now_us), dev, sockets);
         })?;
+        if self.dev.runaway {
+            // reported like a panic or a call that does not return: whatever the running property promises about
+            // this run, a stack that transmits without end within one call does not deliver it
+            self.dev.runaway = false;
+            let n = self.dev.tx.len();
+            self.dev.tx.clear();
+            return Err(viol("C03", "no-unwind", "runaway@Interface::poll:transmit ring filled within one call", format!("one call into the interface at t={} us emitted {} frames and was still asking for transmit buffers", now_us, n)));
+        }
         Ok(PollInfo {
             rx_consumed: self.dev.rx_consumed,
             refused: self.dev.refused,
@@ -219,6 +227,14 @@ impl Node {
         guard("Interface::poll_ingress_single", || {
             iface.poll_ingress_single(inst(now_us), dev, sockets);
         })?;
+        if self.dev.runaway {
+            // reported like a panic or a call that does not return: whatever the running property promises about
+            // this run, a stack that transmits without end within one call does not deliver it
+            self.dev.runaway = false;
+            let n = self.dev.tx.len();
+            self.dev.tx.clear();
+            return Err(viol("C03", "no-unwind", "runaway@Interface::poll:transmit ring filled within one call", format!("one call into the interface at t={} us emitted {} frames and was still asking for transmit buffers", now_us, n)));
+        }
         Ok(PollInfo {
             rx_consumed: self.dev.rx_consumed,
             refused: self.dev.refused,
@@ -244,6 +260,14 @@ impl Node {
                 }
             }
         })?;
+        if self.dev.runaway {
+            // reported like a panic or a call that does not return: whatever the running property promises about
+            // this run, a stack that transmits without end within one call does not deliver it
+            self.dev.runaway = false;
+            let n = self.dev.tx.len();
+            self.dev.tx.clear();
+            return Err(viol("C03", "no-unwind", "runaway@Interface::poll:transmit ring filled within one call", format!("one call into the interface at t={} us emitted {} frames and was still asking for transmit buffers", now_us, n)));
+        }
         Ok(PollInfo {
             rx_consumed: 0,
             refused: self.dev.refused,
